@@ -422,6 +422,10 @@ def build_record(case: Dict[str, Any]) -> Any:
             feature.version = dom["version"]
         if dom["kind"] == "pfam" and dom.get("go"):
             feature.gene_ontologies = GOQualifier(dict(dom["go"]))
+        # notes and free (untracked) qualifiers: the generic part of the feature
+        feature.notes.extend(dom.get("notes", []))
+        for key, values in dom.get("fquals", []):
+            feature._qualifiers[key] = list(values)
         rec.add_feature(feature)
         made_domains[dom["n"]] = feature
     for mod in case.get("modules", []):
@@ -433,6 +437,9 @@ def build_record(case: Dict[str, Any]) -> Any:
                         starter=mod["starter"], final=mod["final"], iterative=mod["iterative"])
         for substrate, monomer in mod.get("monomers", []):
             module.add_monomer(substrate, monomer)
+        module.notes.extend(mod.get("notes", []))
+        for key, values in mod.get("fquals", []):
+            module._qualifiers[key] = list(values)
         rec.add_module(module)
     for pre in case.get("prepeptides", []):
         cds = rec.get_cds_by_name(pre["cds"])
@@ -771,6 +778,10 @@ class C10(Property):
                         dom["go"] = rng.sample([["GO:0009055", "electron transfer activity"], ["GO:0016491", "oxidoreductase activity"],
                                                 ["GO:0016020", "membrane: integral"], ["GO:0004871", "signal transducer activity"],
                                                 ["GO:0007165", "signal transduction"]], rng.choice([1, 2, 2, 3]))
+                if dom["kind"] == "pfam" and rng.random() < 0.3:
+                    dom["notes"] = rng.choice([["a pfam note"], ["note b", "note a"]])
+                    if rng.random() < 0.5:
+                        dom["fquals"] = [["inference", ["protein motif:Pfam"]]]
                 case["domains"].append(dom)
                 mine.append(dom)
             asdoms = [d for d in mine if d["kind"] == "asdom"]
@@ -780,6 +791,11 @@ class C10(Property):
                                         "complete": rng.random() < 0.5, "starter": rng.random() < 0.3,
                                         "final": rng.random() < 0.3, "iterative": rng.random() < 0.2,
                                         "monomers": rng.choice([[], [["mal", "ccmal"]], [["ala", "d-ala"], ["gly", "gly"]]])})
+                if rng.random() < 0.35:
+                    # the generic part of a module feature: notes and free qualifiers (D71-C10: they were dropped on reading)
+                    case["modules"][-1]["notes"] = rng.choice([["a module note"], ["note 2", "note 1"]])
+                    if rng.random() < 0.5:
+                        case["modules"][-1]["fquals"] = [["experiment", ["by hand"]], ["zz_free", ["1", "2"]]]
             if asdoms and rng.random() < 0.5:
                 ann["nrps_pks"] = {"type": rng.choice([None, "NRPS", "Type I Modular PKS"]),
                                    "domains": [[rng.choice(["PKS_KS", "PKS_AT", "AMP-binding", "PCP", "Condensation"]), d["ps"], d["pe"],
